@@ -18,8 +18,12 @@ PROPS_ENTRY = {
      'transmit side: C15_send assumes an idle transmit queue (no earlier chain left outstanding by a misbehaving device) and a buffer of 1..2^32-1 bytes; the bytes '
      'themselves reach the device through Hal::share of exactly that buffer (C04), which the monitor 1556 checks on the implementation by reading the chain through device addresses'],
  'trusted_extra': [
-     'the reference console device and the spin-hook scheduler in harness/src/scen/c15.rs (fills at PRNG-chosen moments, records the view each finish_receive / can_pop saw)',
-     'fix applied in the private crate copy: corpus/findings/C15_consume_overflow_fix.diff (BufRead::consume); the harness is built against that copy',
+     'the reference console device and the spin-hook scheduler in harness/src/scen/c15.rs (fills at PRNG-chosen moments, records the view each finish_receive / can_pop saw); '
+     'it writes its notification-suppression words (used.flags, avail_event) of each queue between calls and, for the receive queue, once when the queue appears during new; '
+     'the words standing in device-written memory when a call starts are the inputs of its line (the device does not change them inside a call before should_notify has read them)',
+     'c15-wrap runs 65 600 receive chunks and 65 600 sends with one line per operation; in that scenario a monitor line implied by another monitor line of the same call is not '
+     'written (1555 [1] by 1552 with bytes, 1557 by 1559)',
+     'the repair of BufRead::consume (F10, commit a750fed) is in /repo; corpus/findings/C15_consume_overflow_fix.diff is kept for reference',
      'size()/emergency_write(): config-space answers are replicated from ModelTransport by the harness (generation counter, scheduled change) and fed to the model as inputs']}
 
 SPEC_ENTRY = {
@@ -55,6 +59,29 @@ SPEC_ENTRY = {
    'send / send_bytes / Write::write on an idle transmit queue, any buffer of 1..2^32-1 bytes: exactly one share - the caller buffer, readable -, the device reaches '
    'exactly [(that address, that length, readable)] from the new ring entry, index published last; once the device has used it the call returns Ok, has unshared the same '
    'buffer once, the queue is idle again and the receive state is untouched'),
+  ('C15_invariant_any_index', 'Proofs/ConsoleProofs.v', 'console_invariant_at',
+   'INDEX WRAP: the invariant with the free-running 16-bit indices of both queues (and the device copies) standing at ANY value when the history starts (sys_init_at start; '
+   'start = 0 is VirtIOConsole::new, sys_init_at_0): histories that cross 65535 -> 0 are a few operations away from start = 65535, 65534, ... and are covered by the same '
+   'statement; every operation carries its own suppression words (ae, uf), universally quantified'),
+  ('C15_stream_any_index', 'Proofs/ConsoleProofs.v', 'stream_exact_at',
+   'nothing lost, duplicated or reordered from every start index, under every suppression word'),
+  ('C15_calls_any_index', 'Proofs/ConsoleProofs.v', 'calls_exact_at',
+   'the per-call contract (C15_calls) from every start index'),
+  ('C15_one_buffer_any_index', 'Proofs/ConsoleProofs.v', 'one_buffer_at',
+   'at most one receive buffer outstanding, device-visible avail - used <= 1 computed modulo 2^16, from every start index'),
+  ('C15_buffer_comes_back', 'Proofs/ConsoleProofs.v', 'repost_delivers',
+   'MEANING OF MONITOR 1559 (+1551/1555/1552): from ANY state satisfying the invariant, a recv(pop) that hands out a byte and leaves nothing unread has - for every pair of '
+   'suppression words, notification sent or not - recorded an outstanding request, nothing is in flight, the device sees exactly one available buffer (avail - used = 1 '
+   'mod 2^16), the device can deliver every legal chunk into it and the first receive call after that delivery returns the first byte of that chunk'),
+  ('C15_buffer_comes_back_any_index', 'Proofs/ConsoleProofs.v', 'repost_delivers_at',
+   'the same at every point of every history from every start index'),
+  ('C15_suppression_words', 'Proofs/ConsoleProofs.v', 'poll_words',
+   'poll_retrieve - the only place where a receive buffer is published (new, recv(pop), read, fill_buf) - in ANY driver state and for ANY two pairs of suppression words: same '
+   'result, same new driver state (the recorded token included), effects equal up to the notification; the notification is sent exactly when should_notify of the queue says so '
+   'for the words given (C05 says what should_notify must imply)'),
+  ('C15_tx_idle_any_index', 'Proofs/ConsoleProofs.v', 'tx_idle_at',
+   'the transmit queue of the any-index system is an idle reachable queue of size 2 with both indices at start: C15_send applies to it and to the queue every completed send '
+   'leaves behind, so to sends across the wrap'),
   ('C15_stream_prefix_refuted', 'Proofs/ConsoleProofs.v', 'stream_prefix_refuted',
    'FINDING (repaired): with consume as it stood (assert!(cursor + amt <= pending_len)) the release profile lets consume(usize::MAX) pass and moves the cursor back: bytes 2 3 '
    'are handed out twice'),
@@ -98,6 +125,27 @@ SPEC_ENTRY = {
   'Example C15_prefix_partial_nonvacuous :\n'
   '  Forall (op_ok false Release) [OFill [1; 2; 3]; OFillBuf 0 0 0 0 []; OConsume 2; OConsume 18446744073709547519].\n'
   'Proof. exact prefix_partial_nonvacuous. Qed.',
+  'Example C15_wrap_nonvacuous :\n'
+  '  let s := sys_run true Debug (sys_init_at 65535 536870912 1000 65535 1)\n'
+  '             [OFill [1]; ORecv true 2000 40000 1; OFill [5; 6]; ORecv false 0 0 0; ORecv true 0 0 0;\n'
+  '              ORecv true 3000 0 1; OFill [9]] in\n'
+  '  65535 < two16\n'
+  '  /\\ s_written s = [1; 5; 6; 9] /\\ s_delivered s = [1; 5; 6] /\\ s_infl s = [9]\n'
+  '  /\\ q_avail_idx (c_rxq (s_c s)) = 2 /\\ d_used (s_d s) = 2 /\\ q_last_used (c_rxq (s_c s)) = 1\n'
+  '  /\\ c_token (s_c s) = Some 0.\n'
+  'Proof. exact wrap_nonvacuous. Qed.',
+  'Example C15_buffer_comes_back_nonvacuous :\n'
+  '  let s := sys_run true Release (sys_init_at 65535 536870912 1000 0 0) [OFill [7]] in\n'
+  '  let st := sys_step true Release s (ORecv true 2000 16384 1) in\n'
+  '  let s\' := sys_run true Release (sys_init_at 65535 0 1000 0 0) [OFill [7]] in\n'
+  '  let st\' := sys_step true Release s\' (ORecv true 2000 0 1) in\n'
+  '  r_val (snd st) <> 0 /\\ unread (s_c (fst st)) = [] /\\ c_token (s_c (fst st)) = Some 0\n'
+  '  /\\ has_notify (snd (recv Release (s_c s) true (dev_view (s_d s)) 2000 16384 1)) = false\n'
+  '  /\\ has_notify (snd (recv Release (s_c s) true (dev_view (s_d s)) 2000 0 1)) = true\n'
+  '  /\\ r_val (snd st\') <> 0 /\\ unread (s_c (fst st\')) = [] /\\ c_token (s_c (fst st\')) = Some 0\n'
+  '  /\\ has_notify (snd (recv Release (s_c s\') true (dev_view (s_d s\')) 2000 0 1)) = false\n'
+  '  /\\ has_notify (snd (recv Release (s_c s\') true (dev_view (s_d s\')) 2000 0 0)) = true.\n'
+  'Proof. exact repost_nonvacuous. Qed.',
   'Example C15_stall_reachable :\n'
   '  let s := sys_run true Debug (sys_init 0 1000 0 0) [OFill [42; 43; 44]; ORead 3 0 0 0 0 []] in\n'
   '  stalled (s_c s) /\\ s_delivered s = [42; 43; 44]\n'
